@@ -56,17 +56,42 @@ def determinism(props, runs):
     return bad
 
 
-def sensitivity():
+def sensitivity(only=None):
+    """Final protocol: git apply the seeded change to /repo, run the named quick checks, undo it."""
     bad = 0
+    rows = []
     for meta in sorted(glob.glob(os.path.join(D, "seeded", "*", "meta.json"))):
         m = json.load(open(meta))
         d = os.path.dirname(meta)
+        if only and m["id"] not in only:
+            continue
         r = subprocess.run([os.path.join(D, "bin", "mutant"), os.path.join(d, "patch.diff")] + m.get("checks", [m["property"]]),
                            stdout=subprocess.PIPE, stderr=subprocess.STDOUT, text=True, cwd=D)
-        caught = "CAUGHT" in r.stdout
-        print("%s: %s" % (os.path.basename(d), "caught" if caught else "MISSED"))
+        res = {}
+        for line in r.stdout.splitlines():
+            parts = line.split()
+            if len(parts) >= 2 and parts[0] in ("CAUGHT", "MISSED", "HARNESS"):
+                cid = parts[1].rstrip(":")
+                cls = ""
+                if "violation class=" in line:
+                    cls = line.split("violation class=")[1].split()[0]
+                res[cid] = (parts[0], cls)
+        caught = any(v[0] == "CAUGHT" for k, v in res.items() if k == m["property"])
+        print("%s: %s  %s" % (m["id"], "caught" if caught else "MISSED", res))
+        sys.stdout.flush()
+        m["last_sensitivity_run"] = {k: {"outcome": v[0], "violation_class": v[1]} for k, v in res.items()}
+        json.dump(m, open(meta, "w"), indent=1)
+        rows.append((m, res, caught))
         if not caught and m.get("expected", "caught") == "caught":
             bad += 1
+    if not only:
+        with open(os.path.join(D, "seeded", "SUMMARY.md"), "w") as f:
+            f.write("# Seeded changes and the checks that catch them\n\n"
+                    "Written by `bin/selftest sensitivity` (patch applied to /repo with `git apply`, quick checks run, "
+                    "`git checkout -- .` afterwards).\n\n| id | breaks | needs in order to manifest | quick checks run -> outcome (violation class) |\n|---|---|---|---|\n")
+            for m, res, caught in rows:
+                f.write("| %s | %s | %s | %s |\n" % (m["id"], m["property"], m["needs_to_manifest"],
+                        "; ".join("%s: %s%s" % (k, v[0].lower(), (" (" + v[1] + ")") if v[1] else "") for k, v in sorted(res.items()))))
     return bad
 
 
@@ -75,4 +100,4 @@ if __name__ == "__main__":
     if mode == "determinism":
         props = sys.argv[2:] or ALL
         sys.exit(1 if determinism(props, int(os.environ.get("SELFTEST_RUNS", "48"))) else 0)
-    sys.exit(1 if sensitivity() else 0)
+    sys.exit(1 if sensitivity(sys.argv[2:] or None) else 0)
